@@ -1554,12 +1554,41 @@ def _corpus():
     return out
 
 
+def _plane_case(ctx, i):
+    """A closed POLYGON / 4-point ELLIPSE in every plane shape x coplanar-or-clearly-not x array precision: the clause
+    "non-coplanar polygons are rejected" (and exactly coplanar ones accepted) as ordinary, replayable item cases."""
+    r = ctx.rng('plane', i)
+    gt = r.choice(['POLYGON', 'POLYGON', 'ELLIPSE'])
+    cop = r.random() < 0.55
+    shape = r.choice(PLANE_SHAPES + ['large'])
+    if not cop and shape == 'tiny':
+        shape = 'generic'
+    if gt == 'ELLIPSE':
+        n, closed = 4, False
+        if not cop and shape in ('collinear-prefix', 'repeated-first'):
+            shape = 'generic'                  # a line and a point always share a plane
+    else:
+        n, closed = r.choice([4, 5, 6, 8]), True
+        if shape in ('collinear-prefix', 'repeated-first'):
+            n = max(n, 5 if cop else 6)
+        if not cop:
+            n = max(n, 5)
+    pts = _plane_points(r, n, closed, cop, shape)
+    d = {'vt': 'SCOORD3D', 'name': _code(r, 'short'), 'rel': r.choice(RELS), 'children': [], 'bad': None if cop else 'noncoplanar',
+         'args': {'gt': gt, 'dim': 3, 'frame_of_reference': _uid(r), 'fiducial': None, 'pts': pts, 'shape': shape,
+                  'layout': r.choice(['C', 'float32', 'float32', 'F', 'transposed-view', 'read-only'])}}
+    decorate(ctx.rng('plane-spell', i), d)
+    return {'idx': 10 ** 6 + i, 'item': d}
+
+
 def run(ctx):
     import hd_env  # noqa: F401
     cases = _corpus() + [gen_case(ctx, i) for i in range(ctx.n(520, 5200))]
     reqs, pend = [], []
     for case in cases:
         check_item(ctx, case, reqs, pend)
+    for i in range(ctx.n(50, 500)):
+        check_item(ctx, _plane_case(ctx, i), reqs, pend)
     _coplanar_law(ctx, reqs, pend)
     answers = ctx.model(reqs)
     if answers is None:
